@@ -104,7 +104,26 @@ class FormReader:
     def peel(self, e: ast.AST) -> Tuple[ast.AST, Form]:
         """strip nested np.ldexp(a, e) -> (innermost a, total exponent form)."""
         total: Form = {}
-        while isinstance(e, ast.Call) and (dotted(e.func) or "") in ("np.ldexp", "numpy.ldexp") and len(e.args) == 2 and not e.keywords:
-            total = add(total, self.form(e.args[1]))
-            e = e.args[0]
+        while True:
+            if isinstance(e, ast.Call) and (dotted(e.func) or "") in ("np.ldexp", "numpy.ldexp") and len(e.args) == 2 and not e.keywords:
+                total = add(total, self.form(e.args[1]))
+                e = e.args[0]
+                continue
+            # delegation to one of the Scaling.(un)scale_* methods: ldexp(arg, <the method's own exponent form>)
+            if isinstance(e, ast.Call) and isinstance(e.func, ast.Attribute) and len(e.args) == 1 and not e.keywords and \
+                    e.func.attr in ("scale_primal", "unscale_primal", "scale_dual", "unscale_dual", "scale_bounds_dual", "unscale_bounds_dual"):
+                sc = self.prog.classes.get("pygradflow.scale.Scaling")
+                m = sc.methods.get(e.func.attr) if sc is not None else None
+                recv = unparse(e.func.value)
+                if m is not None and (recv.endswith("scaling") or recv.endswith("Scaling") or recv == "self" and self.fi.cls is sc):
+                    rs = [n for n in ast.walk(m.node) if isinstance(n, ast.Return) and n.value is not None]
+                    if len(rs) == 1:
+                        inner = facts_for(m).resolved(rs[0], rs[0].value)
+                        b2, f2 = FormReader(self.prog, m, self.role_of, self.extra_atoms).peel(inner)
+                        p0 = [p for p in m.params if p != "self"]
+                        if p0 and unparse(b2) == p0[0]:
+                            total = add(total, f2)
+                            e = e.args[0]
+                            continue
+            break
         return e, total
